@@ -1609,6 +1609,46 @@ func r01CodecIsPlainScaling(c *core.Ctx) {
 		}
 		return ""
 	})
+	// The two-ordinate conversions are the codec applied to each ordinate and nothing else: no arithmetic of their
+	// own (a rounding to some number of decimals, an offset) and no call but the codec, however the body is spelled
+	// (locals, literal, element stores).  Round 12: ToGeomPoint rounded its result to 7 decimals.
+	for _, pc := range []struct{ name, codec string }{{"intgeom.Point.ToGeomPoint", "intgeom.ToGeomOrd"}, {"intgeom.FromGeomPoint", "intgeom.FromGeomOrd"}} {
+		f := c.Anchor(R, pc.name)
+		if f == nil || f.SSA == nil {
+			continue
+		}
+		n, why := 0, ""
+		for _, b := range f.SSA.Blocks {
+			for _, in := range b.Instrs {
+				switch x := in.(type) {
+				case *ssa.BinOp:
+					switch x.Op {
+					case token.ADD, token.SUB, token.MUL, token.QUO, token.REM, token.SHL, token.SHR, token.AND, token.OR, token.XOR, token.AND_NOT:
+						// the counter of a loop over the two ordinates is plain int arithmetic; ordinates are float64 / M
+						if bt, isB := x.Type().Underlying().(*types.Basic); isB && bt.Kind() == types.Int {
+							continue
+						}
+						why += fmt.Sprintf("arithmetic %s at %s; ", x.Op, c.P.Pos(x.Pos()))
+					}
+				case *ssa.Convert:
+					why += fmt.Sprintf("conversion to %s at %s; ", x.Type(), c.P.Pos(x.Pos()))
+				case *ssa.Call:
+					if _, isBuiltin := x.Call.Value.(*ssa.Builtin); isBuiltin {
+						continue
+					}
+					if id := core.StaticCalleeID(x); strings.HasSuffix(id, "/"+pc.codec) {
+						n++
+					} else {
+						why += fmt.Sprintf("call of %s at %s; ", id, c.P.Pos(x.Pos()))
+					}
+				}
+			}
+		}
+		if n < 1 && why == "" {
+			why = fmt.Sprintf("%d calls of %s, two ordinates to convert", n, pc.codec)
+		}
+		c.Check(R, "point-conversion-is-the-codec-per-ordinate/"+pc.name, f.Decl.Pos(), why == "", fmt.Sprintf("%d call sites of %s, no ordinate arithmetic, conversion or other call in the body", n, pc.codec), pc.name+" does more than apply "+pc.codec+" to each ordinate, so a returned coordinate is no longer the stored pixel centre scaled by 10^Precision: "+why)
+	}
 }
 
 func init() {
